@@ -266,6 +266,7 @@ func runSession(c J) J {
 	var cacheErr error
 	newEngine := func() *liquid.Engine {
 		e := liquid.NewEngine()
+		registerExt(e)
 		if spell.Raw != nil {
 			e.Delims(spell.Raw[0], spell.Raw[1], spell.Raw[2], spell.Raw[3])
 		}
